@@ -371,7 +371,16 @@ func runC11(c *Ctx) {
 				}
 				// or the row is the receiver (of this function, or of the function a closure was made in) and every
 				// caller passes a row taken from the table
-				if par, ok := b.(*ssa.Parameter); ok && par.Parent() != nil && len(par.Parent().Params) > 0 && par == par.Parent().Params[0] {
+				paramIndex := func(q *ssa.Parameter) int {
+					for k, x := range q.Parent().Params {
+						if x == q {
+							return k
+						}
+					}
+					return -1
+				}
+				if par, ok := b.(*ssa.Parameter); ok && par.Parent() != nil && len(par.Parent().Params) > 0 && paramIndex(par) >= 0 {
+					pidx := paramIndex(par)
 					sitesOf := ix.callSitesOf(par.Parent())
 					if len(sitesOf) == 0 {
 						return false, "no callers", true
@@ -391,13 +400,14 @@ func runC11(c *Ctx) {
 							}
 						}
 						// the caller forwards its own receiver: look at the caller's callers
-						if par, isPar := rv.(*ssa.Parameter); isPar && d < 3 && len(sf.Params) > 0 && par == sf.Params[0] {
+						if par, isPar := rv.(*ssa.Parameter); isPar && d < 3 && par.Parent() == sf && paramIndex(par) >= 0 {
 							up := ix.callSitesOf(sf)
 							if len(up) == 0 {
 								return false
 							}
+							j := paramIndex(par)
 							for _, u := range up {
-								if !rowFromTable(u.Fn, u.Call.Common().Args[0], d+1) {
+								if j >= len(u.Call.Common().Args) || !rowFromTable(u.Fn, u.Call.Common().Args[j], d+1) {
 									return false
 								}
 							}
@@ -406,7 +416,10 @@ func runC11(c *Ctx) {
 						return false
 					}
 					for _, s := range sitesOf {
-						a := s.Call.Common().Args[0]
+						if pidx >= len(s.Call.Common().Args) {
+							return false, "caller " + FuncName(s.Fn) + " does not pass the row", true
+						}
+						a := s.Call.Common().Args[pidx]
 						if rowFromTable(s.Fn, a, 0) {
 							continue
 						}
@@ -448,6 +461,35 @@ func runC11(c *Ctx) {
 		if f, b := loadedField(inner); f != nil {
 			if ok, why, handled := acceptField(fn, f, b, at, depth); handled {
 				return ok, why
+			}
+			// a field of a small carrier struct (what one pass needs, grouped): judged by what is stored there,
+			// wherever that is
+			if own := c.ownerOf(f); own != "ATable" && own != "Row" && own != "ErrorContainer" {
+				stores := c.StoresTo(f)
+				if len(stores) > 0 {
+					for _, fs := range stores {
+						if ok, why := accept(fs.Fn, fs.St.Val, fs.St, depth+1); !ok {
+							return false, "the carrier's field " + f.Name() + " is given, in " + FuncName(fs.Fn) + ": " + why
+						}
+					}
+					return true, "a field of a carrier struct; every store into it is an acceptable receiver"
+				}
+			}
+		}
+		// (the same, for a by-value carrier whose field is read with a field extraction rather than through an address)
+		if fv, isFV := inner.(*ssa.Field); isFV {
+			if f := fieldOfField(fv); f != nil {
+				if own := c.ownerOf(f); own != "ATable" && own != "Row" && own != "ErrorContainer" {
+					stores := c.StoresTo(f)
+					if len(stores) > 0 {
+						for _, fs := range stores {
+							if ok, why := accept(fs.Fn, fs.St.Val, fs.St, depth+1); !ok {
+								return false, "the carrier's field " + f.Name() + " is given, in " + FuncName(fs.Fn) + ": " + why
+							}
+						}
+						return true, "a field of a carrier struct; every store into it is an acceptable receiver"
+					}
+				}
 			}
 		}
 		// a pointer to the place where the container is kept (**ErrorContainer), read when needed: judged as that
